@@ -40,4 +40,27 @@ PROPS = {
         "technique": "Lean 4 proof (no-panic by case analysis on guarded primitives, extent lemmas by induction) + differential correspondence on malformed inputs",
         "assumptions": ["Go slices: reslicing within capacity does not panic (the nested reader clips capacity)", "encoding/xml and encoding/json tokenisers terminate and do not panic"],
     },
+    "C09": {
+        "level": "proof",
+        "engines": ["batch"],
+        "required_theorems": ["one_item_per_request_item", "echo", "echo_at", "header", "calls_in_order",
+            "stop_semantics", "stop_none_successful_after", "stop_without_failure", "continue_semantics",
+            "continue_all_executed", "rejected", "undo_rejected", "unsupported_version_rejected",
+            "count_mismatch_rejected", "itemResult_failed"],
+        "level_text": "Lean 4 theorems over a statement-by-statement model of BatchExecutor.HandleRequest/handleRequest/executeItem(WithMiddleware)/handleBatchItemError/handleMessageError in which handlers are arbitrary scripts (success, kmipserver.Error, other error, panic with either) and the executor configuration is arbitrary: for EVERY batch length, by induction over the item list, the response has one item per request item in order echoing operation and id, count and version are the request's, the handler call log is strictly increasing; under Stop, with k the first failed response item, exactly the dispatchable items <= k run and every later item is answered failed/canceled; under unset/Continue/unknown option exactly the dispatchable items run and each item gets its own result; Undo, unsupported version and count mismatch give exactly one failed item without operation/id, count 1, and an empty call log. Tied to the code by differential runs (response + real call log) exhaustive up to length 4/5 over the outcome alphabet x options x version x count x ids plus random batches up to 40 items, with the property checked directly on the real response and call log.",
+        "level_note": "Trusted: Lean kernel; the model Batch.loop/executeItem (validated on every run by the batch engine); middlewares are not part of this model (C19). The DiscoverVersions built-in is modelled as 'success, no handler'.",
+        "technique": "Lean 4 proof (induction over the item list with a generalised stopped flag/index) + differential correspondence with scripted handlers + impl-side oracle on response and call log",
+        "assumptions": ["errors.As matches exactly the kmipserver.Error values in the error chain", "recover() returns a non-nil value for every panic (Go >= 1.21 semantics for panic(nil))", "no request or batch-item middleware is installed"],
+    },
+    "C15": {
+        "level": "proof",
+        "engines": ["place", "batch"],
+        "required_theorems": ["obs_eq_solo", "starts_empty", "item_observes", "phBefore_zero", "phBefore_succ",
+            "set_then_observe", "failure_then_observe", "noninterference_steps", "noninterference",
+            "sequential", "never_foreign"],
+        "level_text": "Lean 4 theorems: (i) the executor model threads the placeholder as the Go code does (created empty by newBatchContext, cleared by handleBatchItemError) and what item j's handler reads is its own accesses run on the last value written by earlier items of the same request (empty after a failed item), for every batch; (ii) over a world model with one heap of holders where `begin` allocates a fresh holder and every access goes through the request's own binding, for ANY number of requests and ANY interleaving (inductive Interleaving relation) every request observes exactly what it observes alone, hence only the empty value or values it stored itself; sequential histories are a special case. Tied to the code by scenarios on the real executor: sequential on one shared connection context, nested contexts, goroutine concurrency, and a deterministic scheduler enumerating all merges of small requests; each request's observations are compared with the model and with an independent solo prediction.",
+        "level_note": "Trusted: Lean kernel; the world model's structural fact that newBatchContext allocates a new holder per HandleRequest (checked behaviourally by the place engine incl. shared-parent and nested-parent scenarios). Handler scripts are static access lists; data-race freedom is not claimed by this property's proof.",
+        "technique": "Lean 4 proof (heap/binding invariant preserved by every step; induction over the schedule and over the Interleaving derivation) + differential correspondence under controlled and free interleavings + solo-equivalence oracle",
+        "assumptions": ["context.WithValue lookups return the innermost binding of ctxBatch{}", "handlers access the placeholder only through IdPlaceholder/SetIdPlaceholder/ClearIdPlaceholder with the context they were given"],
+    },
 }
